@@ -177,8 +177,9 @@ func runInChildren(child string, n, workers, chunk int, mkJob func(lo, hi int) i
 					}
 					// the child died while item `done` was running (or before it started it)
 					t := done
-					if hung {
-						// a wedge may be the machine (an overloaded sandbox), not the code: the item is run once more, alone
+					if hung && !lockWedge(errb.String()) {
+						// a wedge may be the machine (an overloaded sandbox), not the code: the item is run once more, alone --
+						// unless the goroutine dump shows code of the repository waiting for a lock for minutes (a deadlock)
 						mu.Lock()
 						again := !retried[t]
 						retried[t] = true
@@ -219,4 +220,22 @@ func runInChildren(child string, n, workers, chunk int, mkJob func(lo, hi int) i
 		}()
 	}
 	wg.Wait()
+}
+
+// lockWedge: does the goroutine dump of a wedged child show a goroutine that has been waiting for a mutex for minutes with a
+// frame of the code under test on its stack?
+func lockWedge(dump string) bool {
+	for _, block := range strings.Split(dump, "\n\n") {
+		head := block
+		if i := strings.IndexByte(block, '\n'); i >= 0 {
+			head = block[:i]
+		}
+		if !strings.HasPrefix(head, "goroutine ") || !strings.Contains(head, "minutes]") {
+			continue
+		}
+		if (strings.Contains(head, "Mutex.Lock") || strings.Contains(head, "Mutex.RLock") || strings.Contains(head, "semacquire")) && strings.Contains(block, "/repo/") {
+			return true
+		}
+	}
+	return false
 }
